@@ -25,9 +25,10 @@ def check(run):
         sessions.append(refexp.gen_session(rng, nops=rng.choice([300, 800]), maxes=[100, 5, 1000], stats_p=0.1))
     # every alignment of later writes relative to the encoder's 2 KiB staging buffer
     sessions += refexp.alignment_sweep(rng, range(0, 2101))
-    res = E.run_sessions(run, sessions)
+    res = E.run_sessions(run, sessions, need_model=True)
     seen = set()
     for s, r in zip(sessions, res):
+        E.judge_model(run, s, r)
         run.case(s[0] if len(s[0]) < 300 else s[0][:150] + "…" + s[0][-100:], True, key=s[0])
         run.count("ops:%d-%d" % (len(s[2]) // 5 * 5, len(s[2]) // 5 * 5 + 4))
         run.count("compression:" + r["comp"])
